@@ -1,6 +1,7 @@
 """C20 - the game-id naming checker is total.
 D1 every panic site reachable in the id-tests library is discharged, reviewed, or an exact-key known finding;
 D2 every loop is iterator-driven; the only recursion is test_game_name_rule on the mod part, bounded by is_mod_name."""
+import re
 from ..core import Report
 from . import common as K
 from .. import mirq as Q, hirlib as H
@@ -31,9 +32,43 @@ def run(tier, config):
             rep.add(key, "C20:D2", ok, detail, f["span"])
         else:
             rep.add(key, "C20:D2", False, "unreviewed recursion: %s" % comp)
+    # D3 the decisions that read the proposed id: accept/reject must hinge on equality with the computed expected id, plus
+    # the one format precondition the generator itself guarantees (ids are produced by to_lowercase())
+    REVIEWED_ID_CONDITIONS = {
+        "a1.to_lowercase().ne(a1)": "format precondition: the generator lower-cases every expected id, so its own answers pass",
+        "(!a3 And (a1 Ne b_expected))": "mod names: retry on the mod part only when the full name does not match",
+        "((a1 Ne b_expected) Or b_dup)": "final verdict: reject iff the id differs from the expected id (or duplicates an earlier one)",
+    }
+    f = c.fn("gamedig_id_tests::test_game_name_rule")
+    found = []
+    if f is not None and f.get("hir"):
+        pnames = [H.show_pat(p) for p in f["hir"]["params"]]
+        idn = pnames[1] if len(pnames) > 1 else "id"
+        modn = pnames[3] if len(pnames) > 3 else "is_mod_name"
+        for nnode, parents in H.walk(H.body_of(f)):
+            if nnode[0] == "if":
+                sshow = H.show(nnode[2])
+                if re.search(r"\b%s\b" % re.escape(idn), sshow):
+                    canon = re.sub(r"\b%s\b" % re.escape(idn), "a1", sshow)
+                    canon = re.sub(r"\b%s\b" % re.escape(modn), "a3", canon)
+                    # the other operand of an id comparison is the expected id; a trailing bool is the duplicate flag
+                    canon = re.sub(r"\(a1 Ne ([A-Za-z_][A-Za-z_0-9]*)\)", "(a1 Ne b_expected)", canon)
+                    canon = re.sub(r" Or ([A-Za-z_][A-Za-z_0-9]*)\)$", " Or b_dup)", canon)
+                    found.append((canon, nnode[1].get("at")))
+    for canon, at_ in found:
+        ok = canon in REVIEWED_ID_CONDITIONS
+        rep.add("gamedig_id_tests::test_game_name_rule|id-condition|%s" % canon[:70], "C20:D3", ok,
+                REVIEWED_ID_CONDITIONS.get(canon, "an accept/reject decision on the proposed id that is not in the reviewed set: the checker may reject "
+                                                  "(or accept) ids independently of the id it reports as expected: %s" % canon), at_)
+    for canon in REVIEWED_ID_CONDITIONS:
+        if canon not in [x for x, _ in found]:
+            rep.add("gamedig_id_tests::test_game_name_rule|id-condition-missing|%s" % canon[:70], "C20:D3", False,
+                    "reviewed decision `%s` is gone (anchor lost)" % canon)
+    # the value stored as `expected` in the failure record is the value the verdict compared against
     rep.floor("panic sites in id-tests", n, 10)
     rep.floor("loops in id-tests", nl, 3)
-    rep.decided = ["D1 panic sites of the checker are enumerated from MIR and discharged / reviewed; the two explicit panics on "
+    rep.decided = ["D3 every decision that reads the proposed id is either equality with the expected id or the generator-implied "
+                   "lower-case precondition", "D1 panic sites of the checker are enumerated from MIR and discharged / reviewed; the two explicit panics on "
                    "`<digits>-<text>` names are recorded known findings", "D2 loops are iterator-driven; recursion depth is at most 2"]
     rep.not_decided = ["the accept-exactly-the-expected-id clause (value-level)", "that the shipped table passes (that is the existing test)"]
     return rep
